@@ -213,6 +213,7 @@ for p, tier in (("p5", "quick"), ("p8", "quick"), ("p3", "thorough")):
 kani("chain::route_remainders_u8_u16_p5", ["C13"], kind="bounded", bound="<= 4 data words, 2 symbols", timeout=1200,
      fns=[CH + "ChainCoder::from_binary", CH + "ChainCoder::into_remainders", CH + "ChainCoder::from_remainders", CH + "ChainCoder::into_binary", CH + "ChainCoderHeads::new"],
      text="from_binary -> decode 2 -> into_remainders -> from_remainders -> encode back -> into_binary == prefix ++ data")
+kani("chain::u8_u32_p8::exports", ["C13"], fns=[CH + "ChainCoder::into_compressed", CH + "ChainCoder::into_binary"], text="export routes at State = 4 Words")
 kani("chain::precision_step_u8_u16", ["C13", "C14", "C10", "C20"], fns=[CH + "ChainCoder::change_precision", CH + "ChainCoder::increase_precision_unchecked", CH + "ChainCoder::decrease_precision_unchecked"],
      text="one precision change from any head state: increase keeps the compressed side and re-establishes the invariant; decrease fails exactly when a refill is needed and no remainders are left")
 kani("chain::precision_change_u8_u16", ["C13", "C10", "C20", "C14"], fns=[CH + "ChainCoder::change_precision", CH + "ChainCoder::increase_precision_unchecked", CH + "ChainCoder::decrease_precision_unchecked"],
@@ -458,6 +459,9 @@ for p, tier in (("p5", "quick"), ("p8", "quick"), ("p3", "thorough")):
          text="from any whole head state: into_compressed == compressed ++ all head words; into_binary Ok iff marker on a word boundary, == compressed ++ words below the marker; remainders handed back")
     kani(f"chain::u8_u16_{p}::new_heads", ["C13", "C14", "C20", "C10"], tier=tier, fns=[CH + "ChainCoderHeads::new", CH + "ChainCoder::from_binary", CH + "ChainCoder::from_compressed"],
          text="fresh coder: remainders head takes the fewest words reaching 2^(sb-wb-P); compressed head empty; Err iff data cannot fill the head")
+kani("models::lookup_noncontiguous_any_quantile_p3", ["C20", "C10", "C03"], kind="bounded", bound="one 3-entry table at P = 3, every u8 quantile value", allow=[r"assertion failed: quantile", r"This is a placeholder message"],
+     fns=[M + "categorical/lookup_noncontiguous.rs::NonContiguousLookupDecoderModel::{from_symbols_and_nonzero_fixed_point_probabilities,quantile_function}"],
+     text="any quantile value: in range => the entry that holds it; out of range => clean panic, never an out-of-bounds table access")
 kani("models::fast_f32_rejects_bad_entries", ["C19"], fns=[M + "categorical.rs::fast_quantized_cdf"],
      text="any NaN or negative entry => Err, for every (also caller-supplied) normalisation")
 kani("models::non_contiguous_fast_counts", ["C19", "C03"], kind="bounded", bound="3 probabilities, 1..4 symbols", timeout=900,
@@ -566,7 +570,8 @@ verus_unit(
     },
 )
 
-kani("range::clear_then_encode_u8_u16", ["C02"], fns=[Q + "RangeEncoder::clear", QE, Q + "RangeEncoder::seal"], timeout=1200,
+kani("range::is_empty_u8_u16", ["C18", "C12"], fns=[Q + "RangeEncoder::is_empty", Q + "RangeEncoder::num_words"], text="is_empty == (export is empty), num_words == export length, also on a sink that already holds words")
+kani("range::clear_then_encode_u8_u16", ["C02", "C06", "C12"], fns=[Q + "RangeEncoder::clear", QE, Q + "RangeEncoder::seal"], timeout=1200,
      text="from ANY encoder state (incl. held-back words): clear(), encode one symbol, seal == what a new encoder seals for that symbol")
 # ---------------- Verus unit: bit-level stack / queue coders (symbol/mod.rs)
 verus_unit(
